@@ -393,6 +393,10 @@ func statusOf(script string, k int) (ast.WalkStatus, error) {
 		return ast.WalkStop, nil
 	case '3':
 		return ast.WalkContinue, errScript
+	case '4':
+		return ast.WalkSkipChildren, errScript
+	case '5':
+		return ast.WalkStop, errScript
 	}
 	return ast.WalkContinue, nil
 }
@@ -531,7 +535,7 @@ func TestRandomSequences(t *testing.T) {
 		for i := 0; i < nops; i++ {
 			parts = append(parts, drawOp(t, n).String())
 		}
-		script := rapid.StringOfN(rapid.RuneFrom([]rune("0000001123")), 0, 12, -1).Draw(t, "script")
+		script := rapid.StringOfN(rapid.RuneFrom([]rune("000000112345")), 0, 12, -1).Draw(t, "script")
 		c := kit.NewCase("tree", "").I("n", int64(n)).S("init", init).S("ops", strings.Join(parts, "; ")).S("script", script)
 		if kit.Check(t, c) {
 			kit.R.Class("random-sequences")
@@ -567,7 +571,7 @@ func TestExhaustive(t *testing.T) {
 	L := kit.Pick(2, 3)
 	ops := allOps(4)
 	inits := initials[:4]
-	scripts := []string{"0", "01", "0002", "013"}
+	scripts := []string{"0", "01", "0002", "013", "04", "0005", "10", "0014"}
 	idx := 0
 	var rec func(prefix []op)
 	count := int64(0)
